@@ -22,6 +22,8 @@ from ..symexpr import NotSymbolic, SymEval, Term, func
 from ..unittables import SETTINGS, module_const, unit_prefixes, unit_standard
 from . import common as K
 
+from . import C02 as _C02
+
 LEVEL_TEXT = ("static analysis (ast): residual-text discipline of the unit atom parser, decision tables, symbolic "
               "identities of the exponent/fraction/dimension algebra for every operand kind, and exhaustive "
               "well-formedness/ambiguity checks over the literal unit tables (153 rows x 20 prefixes)")
@@ -697,6 +699,16 @@ def r9_dimensions(ctx):
     ctx.check(fields[: len(dims)] == list(dims), DM, "Dimensions", "fields are the dimensions of DIMENSION_LIST in order", detail=fields)
 
 
+def r10_solver_state(ctx):
+    _C02.r1_kill_before_use(ctx)
+    fn = ctx.fn(US, "UnitSolver")
+    built = [c for c in ast.walk(fn) if isinstance(c, ast.Call) and dotted_name(c.func) == "ExpressionSolver"]
+    mod = ctx.repo.module(US)
+    shared = [norm(st)[:80] for st in mod.tree.body if isinstance(st, ast.Assign) and any(isinstance(c, ast.Call) and dotted_name(c.func) == "ExpressionSolver" for c in ast.walk(st))]
+    ctx.check(bool(built) and not shared, US, "UnitSolver", "every unit string is parsed by its own solver instance (no module-level solver shared between calls)",
+              detail=shared or [norm(c)[:60] for c in built])
+
+
 RULES = [
     ("C03.R1", "atom parser residual-text discipline: anchored number pattern; anchored exponent suffix; longest table suffix as unit; the remainder is exactly a prefix (whole-string membership) or empty, otherwise an error; no single-character truncation", r1_atom_parser),
     ("C03.R3", "exponent bookkeeping under * and /: present key => old +/- exp, absent key => +/- exp; factors * and /; siblings agree", r3_exponent_algebra),
@@ -706,4 +718,5 @@ RULES = [
     ("C03.R7", "renderer/reader agreement: multiplication symbol, exponent alphabet, fraction symbol; no table symbol contains structural characters", r7_render_read),
     ("C03.R8", "table well-formedness; unique spellings; longest-suffix parsing recovers every admissible (prefix, unit) spelling", r8_tables),
     ("C03.R9", "dimension vectors: component-wise + - * / neg over DIMENSION_LIST, equality over every component, list positions = dimension order", r9_dimensions),
+    ("C03.R10", "a unit string is parsed independently of earlier (possibly rejected) ones: fresh solver per call and empty buffers per solve (shared with C02.R1)", r10_solver_state),
 ]
